@@ -48,6 +48,21 @@ RECORDER_ENTRY = ('reset', 'stage_wbem_connection', 'stage_pywbem_args',
                   'record_staged', 'record')
 
 
+def _only_stages(func, call, depth=0):
+    """the call is part of the recorder staging (or the open check) that
+    legitimately precedes start_timer(): directly, or a private helper of
+    the connection all of whose calls are"""
+    from ..paths import _helper_of
+    d = dotted(call.func) or ''
+    if d.startswith('self.operation_recorder_') or d == 'self._verify_open':
+        return True
+    h = _helper_of(func, call) if depth < 2 else None
+    if h is None:
+        return False
+    return all(_only_stages(h, c, depth + 1)
+               for c in walk_no_nested(h.node) if isinstance(c, ast.Call))
+
+
 def run(repo, rep, tier):
     r1 = rep.rule('C19.R1', 'observers cannot raise on data')
     r2 = rep.rule('C19.R2', 'no strict decode after truncation')
@@ -103,11 +118,7 @@ def run(repo, rep, tier):
                                   ast.ClassDef)):
                     continue          # a definition does not run its body
                 for c in walk_no_nested(s):
-                    if isinstance(c, ast.Call):
-                        d = dotted(c.func) or ''
-                        if d.startswith('self.operation_recorder_') or \
-                                d in ('self._verify_open',):
-                            continue
+                    if isinstance(c, ast.Call) and not _only_stages(f, c):
                         early.append(c)
             r4.ob(not early, f.name + ':nothing-before-start',
                   {'calls_before_start_timer': [norm(c, 50) for c in early]})
@@ -702,8 +713,10 @@ def staged_args_rule(repo, rep):
     for op in operations(repo):
         f = op.func
         ps = [p for p in f.params if p != 'self']
-        calls = [c for c in walk_no_nested(f.node) if isinstance(c, ast.Call)
-                 and (dotted(c.func) or '').endswith(
+        from ..inline import Flat
+        calls = [c for c in walk_no_nested(Flat(f).node)
+                 if isinstance(c, ast.Call) and
+                 (dotted(c.func) or '').endswith(
                      'operation_recorder_stage_pywbem_args')]
         r11.sites += 1
         r11.functions.add(f.fq)
